@@ -65,6 +65,35 @@ def write_replay(pid, rel, o, res, tier):
     return path, confirmed
 
 
+def build_lib():
+    """compile /repo's current library sources (scratch, keyed by content hash); returns path of the archive"""
+    import glob
+    from concurrent.futures import ThreadPoolExecutor
+    srcs = sorted(glob.glob(os.path.join(REPO, 'src', '*.cpp')))
+    h = hashlib.sha256()
+    for f in srcs + sorted(glob.glob(os.path.join(REPO, 'include', 'simulator', '*.hpp'))):
+        h.update(open(f, 'rb').read())
+    d = os.path.join(VERIF, '.work', 'libcache', h.hexdigest()[:16])
+    lib = os.path.join(d, 'libsim.a')
+    if os.path.exists(lib):
+        return lib
+    shutil.rmtree(os.path.join(VERIF, '.work', 'libcache'), ignore_errors=True)
+    os.makedirs(d)
+    def cc(f):
+        o = os.path.join(d, os.path.basename(f)[:-4] + '.o')
+        p = subprocess.run(['g++', '-std=c++14', '-O1', '-g0', '-DNDEBUG', '-w', '-I', os.path.join(REPO, 'include'), '-c', f, '-o', o],
+                           stdout=subprocess.PIPE, stderr=subprocess.STDOUT)
+        if p.returncode != 0:
+            raise RuntimeError("library source does not compile: %s\n%s" % (f, p.stdout.decode()[-500:]))
+        return o
+    with ThreadPoolExecutor(16) as ex:
+        objs = list(ex.map(cc, srcs))
+    subprocess.check_call(['ar', 'rcs', lib] + objs)
+    for o in objs:
+        os.remove(o)
+    return lib
+
+
 def run_driver(pid, rel, o, res):
     if not os.path.exists(DRIVERS):
         return False, "no replay driver registered"
@@ -81,9 +110,9 @@ def run_driver(pid, rel, o, res):
         wit = os.path.join(work, 'witness.json')
         json.dump({"label": o.get("label"), "trace": o.get("trace") or {}}, open(wit, 'w'))
         exe = os.path.join(work, 'drv')
-        srcs = [os.path.join(REPO, 'src', s) for s in ent["link_sources"]]
+        lib = build_lib()
         cmd = ['g++', '-std=c++14', '-O0', '-DNDEBUG', '-w', '-I', os.path.join(REPO, 'include'), '-I', os.path.join(VERIF, 'replay'),
-               os.path.join(VERIF, 'replay', ent["driver"])] + srcs + ['-lboost_system', '-lpthread', '-o', exe]
+               os.path.join(VERIF, 'replay', ent["driver"]), lib, '-lboost_system', '-lpthread', '-o', exe]
         p = subprocess.run(cmd, stdout=subprocess.PIPE, stderr=subprocess.STDOUT, timeout=600)
         if p.returncode != 0:
             return False, "driver build failed: " + p.stdout.decode()[-800:]
